@@ -33,18 +33,19 @@ fn needs_xlsx_escape(c: char) -> bool {
     matches!(cp, 0x00..=0x08 | 0x0B | 0x0C | 0x0E..=0x1F)
 }
 
-/// Returns true if `bytes` starts with `_xHHHH_` (7 bytes, 4 hex digits).
+/// Returns true if `s` starts with `_xHHHH` (4 hex digits) followed by a character that
+/// is written starting with `_`: either a literal `_` or a character that is itself
+/// encoded as `_xHHHH_`. In both cases the output would read `_xHHHH_`.
 /// A literal `_` at such a position must be written as `_x005F_` so the
 /// decoder does not misread the surrounding text as an escape sequence.
-fn starts_xlsx_escape_pattern(bytes: &[u8]) -> bool {
-    bytes.len() >= 7
-        && bytes[0] == b'_'
-        && bytes[1] == b'x'
-        && bytes[6] == b'_'
-        && bytes[2].is_ascii_hexdigit()
-        && bytes[3].is_ascii_hexdigit()
-        && bytes[4].is_ascii_hexdigit()
-        && bytes[5].is_ascii_hexdigit()
+fn starts_xlsx_escape_pattern(s: &str) -> bool {
+    let mut chars = s.chars();
+    chars.next() == Some('_')
+        && chars.next() == Some('x')
+        && (0..4).all(|_| chars.next().is_some_and(|c| c.is_ascii_hexdigit()))
+        && chars
+            .next()
+            .is_some_and(|c| c == '_' || needs_xlsx_escape(c))
 }
 
 /// Performs escaping of common XML characters inside an attribute value.
@@ -61,20 +62,19 @@ pub fn escape_xml(s: &'_ str) -> Cow<'_, str> {
     let needs_escape = s.char_indices().any(|(i, c)| {
         matches!(c, '<' | '>' | '"' | '\'' | '&' | '\n' | '\r')
             || needs_xlsx_escape(c)
-            || (c == '_' && starts_xlsx_escape_pattern(&s.as_bytes()[i..]))
+            || (c == '_' && starts_xlsx_escape_pattern(&s[i..]))
     });
     if !needs_escape {
         return Cow::Borrowed(s);
     }
 
     let mut result = String::with_capacity(s.len() + 8);
-    let bytes = s.as_bytes();
     let mut i = 0;
     while i < s.len() {
         let c = s[i..].chars().next().unwrap();
         if needs_xlsx_escape(c) {
             result.push_str(&format!("_x{:04X}_", c as u32));
-        } else if c == '_' && starts_xlsx_escape_pattern(&bytes[i..]) {
+        } else if c == '_' && starts_xlsx_escape_pattern(&s[i..]) {
             result.push_str("_x005F_");
         } else {
             match escape_char(c) {
@@ -149,6 +149,15 @@ mod tests {
         assert_eq!(roundtrip("_x0001_"), "_x0001_");
         assert_eq!(roundtrip("_x005F_"), "_x005F_");
         assert_eq!(roundtrip("hello _x0001_ world"), "hello _x0001_ world");
+    }
+
+    #[test]
+    fn test_lookalike_completed_by_control_char_roundtrip() {
+        // `_x0041` followed by a control character: the control is written as `_x0001_`,
+        // which would complete `_x0041_` unless the first underscore is escaped
+        assert_eq!(escape_xml("_x0041\x01").as_ref(), "_x005F_x0041_x0001_");
+        assert_eq!(roundtrip("_x0041\x01"), "_x0041\x01");
+        assert_eq!(roundtrip("_x0041\x01_"), "_x0041\x01_");
     }
 
     #[test]
